@@ -12,7 +12,7 @@ leaves concatenate to the source up to the end of the root, and the root
 ends at the end of the source unless such an error points at its end
 (`TailReported`).
 -/
-import ElvProofs.C01.Main
+import ElvProofs.C01.Term4
 open Go C01
 
 /-- `m` is `n` or a node below it. -/
@@ -78,8 +78,7 @@ only other outcome is running out of fuel — every node has its range inside
 the source, its text is the source slice of the range, its children tile the
 range in order; the leaves concatenate to the source up to the end of the
 root; text after the root is reported; every error is inside the source.
-The gap to `C01_full` is exactly the FUEL outcome (termination with the
-default fuel), see `C01_terminates`. -/
+Together with `C01_terminates` this gives `C01_total_lossless : C01_full`. -/
 theorem C01_lossless_partial (isPrint : Int → Bool) (src : Bytes) (t : Node) (errs : List PErr)
     (h : parse isPrint src = .ok t errs) :
     (∀ m, C01_Desc t m → C01_NodeOk src m) ∧
@@ -113,6 +112,40 @@ theorem C01_parseAs_lossless_partial (isPrint : Int → Bool) (fuel : Nat) (nt :
 theorem C01_error_ranges (isPrint : Int → Bool) (src : Bytes) (t : Node) (errs : List PErr)
     (h : parse isPrint src = .ok t errs) : ∀ x ∈ errs, x.frm ≤ x.to ∧ x.to ≤ src.length :=
   (C01_lossless_partial isPrint src t errs h).2.2.2.2
+
+/-- (a, second half) Termination: with the default fuel (`7·len + 8` levels
+of nesting; `len + 2` iterations per loop) no entry point runs out of fuel —
+every loop iteration that continues consumes a byte, and at most 7 nested
+`parse` calls happen without consuming one. -/
+theorem C01_terminates (isPrint : Int → Bool) (nt : NT) (src : Bytes)
+    (hnt : ∀ l, nt ≠ .redir (some l)) : parseAs isPrint nt src ≠ .fuel :=
+  parseAs_no_fuel isPrint nt src hnt
+
+/-- C01 at full strength for `Parse`: for every byte string and every
+`unicode.IsPrint`, parsing returns a tree and errors (no panic, no FUEL), every
+node has its range inside the source, its text is the source slice of its
+range and its children tile it in order, the leaves concatenate to the source
+up to the end of the root, text after the root is reported by an error placed
+there, and every error lies inside the source. -/
+theorem C01_total_lossless : C01_full := by
+  intro isPrint src
+  cases h : parse isPrint src with
+  | ok t errs => exact ⟨t, errs, rfl, C01_lossless_partial isPrint src t errs h⟩
+  | panic w => exact absurd h (C01_no_panic isPrint (defaultFuel src) .chunk src (fun l => by simp) w)
+  | fuel => exact absurd h (C01_terminates isPrint .chunk src (fun l => by simp))
+
+/-- The same for every entry point `ParseAs(src, n)`. -/
+theorem C01_parseAs_total_lossless (isPrint : Int → Bool) (nt : NT) (src : Bytes)
+    (hnt : ∀ l, nt ≠ .redir (some l)) :
+    ∃ t errs, parseAs isPrint nt src = .ok t errs ∧
+      (∀ m, C01_Desc t m → C01_NodeOk src m) ∧
+      t.frm = 0 ∧ leaves t ++ src.drop t.to = src ∧ TailReported src t errs ∧
+      ErrsInRange src errs := by
+  cases h : parseAs isPrint nt src with
+  | ok t errs =>
+    exact ⟨t, errs, rfl, C01_parseAs_lossless_partial isPrint (defaultFuel src) nt src hnt t errs h⟩
+  | panic w => exact absurd h (C01_no_panic isPrint (defaultFuel src) nt src hnt w)
+  | fuel => exact absurd h (C01_terminates isPrint nt src hnt)
 
 /-! ### Non-vacuity: the hypotheses above are met by concrete, non-trivial inputs -/
 
